@@ -70,7 +70,7 @@ def RK4Iterator(f, t, X_old, updateX):
     X_k1 = updateX(X_old, k1, dt/2)
 
     k2 = f(t + dt/2, X_k1)
-    dxdtsum += 2*k2
+    dxdtsum = dxdtsum + 2*k2    #not in place: k1 may alias X_old (e.g. dX/dt = X with identity flatten)
     X_k2 = updateX(X_old, k2, dt/2)
 
     k3 = f(t + dt/2, X_k2)
